@@ -48,6 +48,10 @@ CLAIMED = {
         text="data built by constructor expressions (flonums from 64-bit patterns: half-precision-seeded, boundary and random; all scalar values as chars / inside strings / inside symbols incl. hex escapes, swept in 4096-value blocks (exhaustive in the thorough tier); Hypothesis trees over all number kinds, strings, symbols needing bars, lists, dotted lists, vectors, bytevectors, shared and circular structure) are written by native write, (scheme write) write and write-shared and read back by native read and (scheme read) read; the datum must come back identical (flonums bit-exact), Python must parse every written flonum to the same double, and every valid text (written form decorated with comments/whitespace) must be accepted by both readers with the same result; exploration only",
         note="agreement of the two readers is asserted on valid texts only: on malformed text R7RS defines nothing and the readers are lenient in different places (recorded as classes, not violations); cyclic data are written only by the (scheme write) writers (the native writer has no datum labels) and compared through write(read(write(x))) = write(x); an observed defect outside the generated domain (#e1.2 reads as 1199999999999999/10^15) is described in DESIGN.md",
         technique="round-trip property-based testing (Hypothesis trees, exhaustive scalar sweeps, bit-pattern float sweeps) with an independent parser (Python float) for writer output"),
+    "C12": dict(
+        text="model-based stateful test: Hypothesis-generated histories (<= 40 operations over 4 named strings mixing 1/2/3/4-byte scalar values: construction, string-set! with every width change at first/middle/last index, fill!, copy! incl. overlapping self copies, substring/copy/append, list/vector/utf8 conversions with ranges, map/for-each/upcase, comparisons, input and output string ports, cursor walks in both directions) rendered as a program that prints after every step the result and, for every string, its length, code points and UTF-8 bytes; compared with a Python list-of-code-points model (UTF-8 via Python's encoder); a quarter of the shards run on the ASan build with the poisoned heap; plus a sweep of scalar values through char->string->utf8->string->char (exhaustive in the thorough tier); exploration only",
+        note="trusted: Python's UTF-8 codec and list model; string-set! on literals and reads from an input string port whose string was mutated are not generated (R7RS: error / unspecified)",
+        technique="model-based stateful property-based testing (Hypothesis) against a code-point-array model, plus exhaustive sweep"),
 }
 
 NOT_YET = "check not built yet in this session (planned, see DESIGN.md section 4)"
